@@ -256,6 +256,8 @@ func init() {
 		}
 		return Slice{A: s}
 	})
+	reg("internal/stringslite.Clone", func(m *Machine, fr *frame, a []Value) Value { return a[0] })
+	reg("strings.Clone", func(m *Machine, fr *frame, a []Value) Value { return a[0] })
 	reg("internal/abi.NoEscape", func(m *Machine, fr *frame, a []Value) Value { return a[0] })
 	reg("internal/abi.Escape", func(m *Machine, fr *frame, a []Value) Value { return a[0] })
 	reg("strings.(*Builder).copyCheck", func(m *Machine, fr *frame, a []Value) Value { return nil })
